@@ -8,6 +8,7 @@ use std::panic::{catch_unwind, AssertUnwindSafe};
 use std::sync::Mutex;
 
 pub mod logcap;
+pub mod tunnel_env;
 
 /// One divergence between the specification and the implementation
 #[derive(Debug, Clone)]
